@@ -296,7 +296,7 @@ def judge(case: Dict[str, Any], obs: Any) -> None:
     if conn.handler_exc is not None:
         raise Violation("handler_exception", repr(conn.handler_exc), backend=be)
     reqs = case["requests"]
-    insts = [i for i in obs.instances if not str(i.scope.get("path", "")).startswith("/twin/")]
+    insts = [i for i in obs.instances if not is_twin(i)]
     if case.get("twin"):
         judge_twin(case, obs)
     if len(insts) != len(reqs):
@@ -363,6 +363,12 @@ def judge(case: Dict[str, Any], obs: Any) -> None:
                 raise Violation("unknown_message", f"request {i}: {m['type']}", backend=be)
 
 
+def is_twin(inst: Any) -> bool:
+    """A request of the second connection (told by its header, not by its path: a generated
+    path such as /twin%2F decodes into that namespace)."""
+    return any(bytes(n).lower() == b"x-twin" for n, _ in inst.scope.get("headers") or [])
+
+
 def twin_requests(case: Dict[str, Any]) -> List[Dict[str, Any]]:
     return [{"method": "POST", "path": f"/twin/{k}", "query": None, "version": "1.1",
              "headers": [["Host", "twin.example"], ["X-Twin", str(k)]], "framing": "cl",
@@ -372,7 +378,7 @@ def twin_requests(case: Dict[str, Any]) -> List[Dict[str, Any]]:
 def judge_twin(case: Dict[str, Any], obs: Any) -> None:
     be = obs.backend
     reqs = twin_requests(case)
-    insts = [i for i in obs.instances if str(i.scope.get("path", "")).startswith("/twin/")]
+    insts = [i for i in obs.instances if is_twin(i)]
     if len(insts) != len(reqs):
         raise Violation("instance_count", f"second connection: {len(insts)} instances for "
                         f"{len(reqs)} requests", backend=be, conn="twin")
